@@ -42,7 +42,9 @@ type stableDecl struct {
 	field   int
 	// map form
 	mapT *types.Map
-	err  string
+	// slice-cell form: element type
+	cellT types.Type
+	err   string
 	// functions containing a store that is not to an own allocation, and everything that can reach one
 	bad   map[*ssa.Function]string
 	reach map[*ssa.Function]bool
@@ -83,9 +85,30 @@ func (w *World) resolveStables() {
 				}
 				continue
 			}
+			if rest, ok := strings.CutPrefix(text, "slicetype "); ok {
+				t := pi.evalType(w, strings.TrimSpace(rest))
+				if t == nil {
+					d.err = "cannot resolve type"
+					continue
+				}
+				sl, ok := t.Underlying().(*types.Slice)
+				if !ok || isStructType(sl.Elem()) || comps(sl.Elem()) == nil {
+					d.err = "not a slice type with scalar / pointer / slice elements"
+					continue
+				}
+				d.cellT = sl.Elem()
+				for _, c := range comps(sl.Elem()) {
+					fam := cellFam(sl.Elem()) + c[0]
+					d.fams[fam] = ArrSort(SInt, c[1])
+					if c[0] == "" && c[1] == SInt && isPointerLike(sl.Elem()) {
+						d.ptr[fam] = true
+					}
+				}
+				continue
+			}
 			k := strings.LastIndex(text, ".")
 			if k <= 0 {
-				d.err = "expected T.f or maptype <type>"
+				d.err = "expected T.f, maptype <type> or slicetype <type>"
 				continue
 			}
 			t := pi.evalType(w, strings.TrimSpace(text[:k]))
@@ -227,6 +250,18 @@ func (w *World) checkStables(decls []*stableDecl) {
 							}
 						}
 					}
+					// store into a cell (slice element, pointed-to variable) of a stable cell type
+					if _, isFA := x.Addr.(*ssa.FieldAddr); !isFA {
+						if _, isG := x.Addr.(*ssa.Global); !isG {
+							for _, d := range decls {
+								if d.cellT != nil && types.Identical(derefType(x.Addr.Type()), d.cellT) {
+									if !sc.fresh(x.Addr, fn, 0, map[ssa.Value]bool{}) {
+										fail(d, fn, ins, "store into a cell of the element type")
+									}
+								}
+							}
+						}
+					}
 					// whole-struct store
 					et := derefType(x.Addr.Type())
 					if isStructType(et) || isArrayOfStruct(et) {
@@ -261,6 +296,28 @@ func (w *World) checkStables(decls []*stableDecl) {
 							}
 						}
 					}
+				case *ssa.IndexAddr:
+					for _, d := range decls {
+						if d.cellT != nil && types.Identical(derefType(x.Type()), d.cellT) {
+							if refs := x.Referrers(); refs != nil {
+								for _, r := range *refs {
+									switch rr := r.(type) {
+									case *ssa.Store:
+										if rr.Addr == ssa.Value(x) && rr.Val != ssa.Value(x) {
+											continue
+										}
+									case *ssa.UnOp:
+										continue
+									case *ssa.DebugRef:
+										continue
+									}
+									if !sc.fresh(x.X, fn, 0, map[ssa.Value]bool{}) {
+										fail(d, fn, r, "address of a slice element is taken")
+									}
+								}
+							}
+						}
+					}
 				case *ssa.MapUpdate:
 					for _, d := range decls {
 						if d.mapT != nil && types.Identical(x.Map.Type().Underlying(), d.mapT) {
@@ -288,6 +345,15 @@ func (w *World) checkStables(decls []*stableDecl) {
 					case "copy", "append":
 						if len(cc.Args) > 0 {
 							if sl, isSl := cc.Args[0].Type().Underlying().(*types.Slice); isSl {
+								if bi.Name() == "copy" {
+									for _, d := range decls {
+										if d.cellT != nil && types.Identical(sl.Elem(), d.cellT) {
+											if !sc.fresh(cc.Args[0], fn, 0, map[ssa.Value]bool{}) {
+												fail(d, fn, ins, "copy into a slice of the element type")
+											}
+										}
+									}
+								}
 								for _, d := range decls {
 									if d.structT != nil && containsByValue(sl.Elem(), d.structT, 0) {
 										if !sc.fresh(cc.Args[0], fn, 0, map[ssa.Value]bool{}) {
@@ -306,6 +372,24 @@ func (w *World) checkStables(decls []*stableDecl) {
 						name = o.Name()
 					}
 					pk := funcPkgPath(callee)
+					if pk == "sort" || pk == "slices" || pk == "golang.org/x/exp/slices" {
+						for _, a := range cc.Args {
+							at := a.Type()
+							if mi, isMI := a.(*ssa.MakeInterface); isMI {
+								at = mi.X.Type()
+								a = mi.X
+							}
+							if sl, isSl := at.Underlying().(*types.Slice); isSl {
+								for _, d := range decls {
+									if d.cellT != nil && types.Identical(sl.Elem(), d.cellT) {
+										if !sc.fresh(a, fn, 0, map[ssa.Value]bool{}) {
+											fail(d, fn, ins, pk+"."+name+" on a slice of the element type")
+										}
+									}
+								}
+							}
+						}
+					}
 					if (pk == "maps" || pk == "golang.org/x/exp/maps") && (name == "Copy" || name == "DeleteFunc" || name == "Clear" || name == "Insert") && len(cc.Args) > 0 {
 						for _, d := range decls {
 							if d.mapT != nil && types.Identical(cc.Args[0].Type().Underlying(), d.mapT) {
@@ -324,6 +408,7 @@ func (w *World) checkStables(decls []*stableDecl) {
 	// function to every function value / closure it creates or mentions (it may hand it to a library)
 	rev := map[*ssa.Function][]*ssa.Function{}
 	cg := cha.CallGraph(w.prog)
+	w.cg = cg
 	for f, n := range cg.Nodes {
 		for _, e := range n.Out {
 			if e.Callee != nil && e.Callee.Func != nil {
@@ -373,6 +458,77 @@ func (w *World) stableIn(fam string, fn *ssa.Function) *stableDecl {
 		return nil
 	}
 	return d
+}
+
+// stableAt decides stability for one havoc: r.rooted -> the havoc stands for the execution of r.roots
+// (a callee with a body, or the callees of a loop body plus the loop's own function r.selfFn); otherwise
+// for anything the unit's function can reach.
+func (w *World) stableAt(fam string, unitFn *ssa.Function, r hidRec) *stableDecl {
+	d := w.stableFams[fam]
+	if d == nil {
+		return nil
+	}
+	if !r.rooted {
+		return w.stableIn(fam, unitFn)
+	}
+	for _, f := range r.roots {
+		if d.reach[f] {
+			return nil
+		}
+	}
+	if r.selfFn != nil {
+		if _, bad := d.bad[r.selfFn]; bad {
+			return nil
+		}
+	}
+	return d
+}
+
+// loopCallees lists every function a call instruction inside the given blocks may invoke according to the
+// CHA call graph; ok is false when a callee has no body (a library function may call back anything it was
+// handed) or the graph is not available.
+func (w *World) loopCallees(fn *ssa.Function, blocks map[*ssa.BasicBlock]bool) ([]*ssa.Function, bool) {
+	if w.cg == nil {
+		return nil, false
+	}
+	n := w.cg.Nodes[fn]
+	if n == nil {
+		return nil, false
+	}
+	seen := map[*ssa.Function]bool{}
+	var out []*ssa.Function
+	for _, e := range n.Out {
+		if e.Site == nil || !blocks[e.Site.Block()] || e.Callee == nil || e.Callee.Func == nil {
+			continue
+		}
+		f := e.Callee.Func
+		if f.Blocks == nil {
+			if _, isB := e.Site.Common().Value.(*ssa.Builtin); isB {
+				continue
+			}
+			if externalIsScalarPure(f) || externalReadonly[f.String()] {
+				continue
+			}
+			return nil, false
+		}
+		if !seen[f] {
+			seen[f] = true
+			out = append(out, f)
+		}
+	}
+	// function values / closures mentioned in the loop body may be handed to anybody
+	for b := range blocks {
+		for _, ins := range b.Instrs {
+			for _, op := range ins.Operands(nil) {
+				if f, ok := (*op).(*ssa.Function); ok && !seen[f] {
+					seen[f] = true
+					out = append(out, f)
+				}
+			}
+		}
+	}
+	sort.Slice(out, func(i, j int) bool { return out[i].String() < out[j].String() })
+	return out, true
 }
 
 // whyUnstable names a storing function reachable from fn (diagnostics).
